@@ -21,7 +21,7 @@ Never == -100000
 
 Init == t = 0 /\ lastRun = Never /\ log = <<>> /\ reply = "" /\ calls = 0 /\ hist = <<>> /\ done = FALSE
 
-Accepts == NCb > 0 /\ t - lastRun >= Skip
+Accepts == NCb > 0 /\ (lastRun = Never \/ t - lastRun >= Skip)     \* the very first call is accepted whatever the interval
 
 (* Invalidate(ctx) *)
 Call ==
